@@ -33,13 +33,16 @@ def make_menu(spec, tier, with_np):
 
 def menu_args(menu):
     return {"events": core.show_evs(menu["events"]), "factors": menu["factors"], "kinds": menu["kinds"],
-            "batches": [[[A.show(r) for r in recs], ws] for recs, ws in menu.get("batches", [])]}
+            "batches": [[[A.show(r) for r in recs], ws] for recs, ws in menu.get("batches", [])],
+            "init": [list(op) for op in menu.get("init", [])]}
 
 
 def menu_from_args(a):
     m = {"events": core.unshow_evs(a["events"]), "factors": a["factors"], "kinds": a["kinds"]}
     if a.get("batches"):
         m["batches"] = [([A.unshow(r) for r in recs], ws) for recs, ws in a["batches"]]
+    if a.get("init"):
+        m["init"] = [tuple(op) for op in a["init"]]
     return m
 
 
@@ -72,23 +75,31 @@ def explore_tree(spec, tier, acc):
     else:
         H, P = (4 if d == 1 else 3), 3
     out = []
+    menu_holder = [menu]
 
     def on_state(pool, refs, hist):
         if not out:
-            check_state(spec, pool, refs, hist, menu, out)
+            check_state(spec, pool, refs, hist, menu_holder[0], out)
         acc.distinct("obs", FW.hkey((S.key(spec), tuple(C.obs(o) for o in pool))))
 
     def on_error(hist, op, exc, pool, refs):
-        args = {"spec": spec, "menu": menu_args(menu), "history": [list(o) for o in hist + [op]]}
+        m = menu_holder[0]
+        args = {"spec": spec, "menu": menu_args(m), "history": [list(o) for o in hist + [op]]}
         acc.add(core.v_exc(PROP, "history", "operation %s raised" % op[0], exc, args,
-                           {"history": X.show_history(hist + [op], menu)}))
+                           {"history": X.show_history(hist + [op], m)}))
 
     st = X.bfs(spec, menu, H, P, on_state, on_error, max_states=None)
+    # second search from a non-initial state: two independently built members, the second already filled
+    menu2 = dict(menu, init=[("new",), ("fill", 1, len(menu["events"]) - 3), ("fill", 0, 0)])
+    menu_holder[0] = menu2
+    st2 = X.bfs(spec, menu2, 2, max(P, 3) if d <= 2 else 2, on_state, on_error, max_states=None)
+    menu_holder[0] = menu
     acc.add(out)
-    acc.n("states", st["states"])
-    acc.n("transitions", st["transitions"])
-    acc.n("op_errors", st["errors"])
-    acc.c["max_depth"] = max(acc.c.get("max_depth", 0), st["max_depth"])
+    for s_ in (st, st2):
+        acc.n("states", s_["states"])
+        acc.n("transitions", s_["transitions"])
+        acc.n("op_errors", s_["errors"])
+        acc.c["max_depth"] = max(acc.c.get("max_depth", 0), s_["max_depth"])
     return menu, H, P
 
 
@@ -155,19 +166,21 @@ def sweep_one(kind, cfg, x, path):
     args = {"kind": kind, "cfg": [A.show(float(c)) if isinstance(c, float) else c for c in cfg], "x": A.show(x),
             "path": path}
     q = lambda d: d["x"]  # noqa: E731
+    # a non-Count sub-aggregator forces the generic (masked) numpy path instead of np.histogram / np.unique
+    val = hg.Sum(lambda d: d["x"]) if path.endswith("generic") else hg.Count()
     if kind == "Bin":
-        h = hg.Bin(cfg[0], cfg[1], cfg[2], q)
+        h = hg.Bin(cfg[0], cfg[1], cfg[2], q, val)
     elif kind == "SparselyBin":
-        h = hg.SparselyBin(cfg[0], q, origin=cfg[1])
+        h = hg.SparselyBin(cfg[0], q, val, origin=cfg[1])
     elif kind == "CentrallyBin":
-        h = hg.CentrallyBin(list(cfg), q)
+        h = hg.CentrallyBin(list(cfg), q, val)
     elif kind == "IrregularlyBin":
-        h = hg.IrregularlyBin(list(cfg), q)
+        h = hg.IrregularlyBin(list(cfg), q, val)
     else:
-        h = hg.Stack(list(cfg), q)
+        h = hg.Stack(list(cfg), q, val)
     w = 0.5
     try:
-        if path == "fill":
+        if path in ("fill", "fill-generic"):
             h.fill({"x": x}, w)
         elif path == "numpy-fast":
             h.fill.numpy({"x": np.array([x, x])}, 1)
@@ -229,7 +242,7 @@ def _sweep(task):
     kind, cfg, edges = task
     acc = FW.Acc()
     for x in probes(edges):
-        for path in ("fill", "numpy-fast", "numpy-weighted"):
+        for path in ("fill", "numpy-fast", "numpy-weighted", "fill-generic", "numpy-generic"):
             acc.add(sweep_one(kind, cfg, x, path))
             acc.n("sweep_probes")
             acc.distinct("sweep", FW.hkey((kind, repr(cfg), repr(A.show(x)), path)))
